@@ -2,7 +2,7 @@
 From Coq Require Import NArith Bool List.
 From RS.Gen Require Import Prelude GenConsts GenRate.
 From RS.Model Require Import Field Codec Machine Spec.
-From RS.Proofs Require Import RateFacts.
+From RS.Proofs Require Import RateFacts PermFacts DefaultRate.
 Local Open Scope N_scope.
 
 (* the rule of the property statement: high rate iff npow2(K) > npow2(R), or they
@@ -51,3 +51,48 @@ Example C09_ties :
   rule_high 3 2 = true /\ rule_high 2 3 = false /\ rule_high 3 3 = true /\ rule_high 4 3 = false /\
   rule_high 3 4 = true /\ rule_high 32768 32768 = true /\ rule_high 61440 4096 = true /\ rule_high 4096 61440 = false.
 Proof. vm_compute. repeat split. Qed.
+
+(* ---- on codec objects: the default-rate codec and ReedSolomonEncoder/Decoder (is_default) ARE the
+   dedicated codec of the rate the rule picks (dedicated K R = CHigh if rule_high K R, else CLow): same
+   validation result, same rate, same working space, same allocation flag; and whole rounds - construction
+   (or reset, which is the same function on the held working space), adds, encode / decode with any probes -
+   give identical results, errors included. The engine does not matter either (C03_api_encode/decode). ---- *)
+Check (eq_refl : dedicated = fun K R => if rule_high K R then CHigh else CLow).
+Theorem C09_enc_make : forall c e K R sb w, is_default c = true -> default_supportsb K R = true ->
+  enc_make c e K R sb w =
+  match enc_make (dedicated K R) e K R sb w with inl (x, a) => inl (set_ecodec x c, a) | inr err => inr err end.
+Proof. exact enc_make_default. Qed.
+Print Assumptions C09_enc_make.
+Theorem C09_dec_make : forall c e K R sb w, is_default c = true -> default_supportsb K R = true ->
+  dec_make c e K R sb w =
+  match dec_make (dedicated K R) e K R sb w with inl (y, a) => inl (set_dcodec y c, a) | inr err => inr err end.
+Proof. exact dec_make_default. Qed.
+Print Assumptions C09_dec_make.
+Theorem C09_round_enc : forall junk c e K R sb w originals ep probes, is_default c = true -> default_supportsb K R = true ->
+  match enc_make c e K R sb w, enc_make (dedicated K R) e K R sb w with
+  | inl (x, a), inl (x', a') =>
+      a = a' /\
+      match enc_add_all x originals, enc_add_all x' originals with
+      | inl x1, inl x1' => snd (enc_encode junk ep x1 probes) = snd (enc_encode junk ep x1' probes)
+      | inr err, inr err' => err = err'
+      | _, _ => False
+      end
+  | inr err, inr err' => err = err'
+  | _, _ => False
+  end.
+Proof. exact default_round_enc. Qed.
+Print Assumptions C09_round_enc.
+Theorem C09_round_dec : forall junk c e K R sb w adds ep probes, is_default c = true -> default_supportsb K R = true ->
+  match dec_make c e K R sb w, dec_make (dedicated K R) e K R sb w with
+  | inl (y, a), inl (y', a') =>
+      a = a' /\
+      match dec_adds y adds, dec_adds y' adds with
+      | inl y1, inl y1' => snd (dec_decode junk ep y1 probes) = snd (dec_decode junk ep y1' probes)
+      | inr err, inr err' => err = err'
+      | _, _ => False
+      end
+  | inr err, inr err' => err = err'
+  | _, _ => False
+  end.
+Proof. exact default_round_dec. Qed.
+Print Assumptions C09_round_dec.
